@@ -647,6 +647,13 @@ RuleText(en) == <<46, 115, 118, 103, 98, 111, 98, 32, 46>> \o en[1] \o <<123, 32
 FlatRows(rows) == Join(rows, <<10>>)
 EndsWith(t, suffix) == Len(suffix) <= Len(t) /\ SubSeq(t, Len(t) - Len(suffix) + 1, Len(t)) = suffix
 TrimTrailingLF(t) == LET idx == { i \in 1..Len(t) : t[i] \notin {10, 32, 9, 13} } IN IF idx = {} THEN <<>> ELSE SubSeq(t, 1, SetMax(idx))
+\* the texts occur in t one after the other (not overlapping), in this order
+FirstAt(t, x, from) == LET S == { p \in from..(Len(t) - Len(x) + 1) : SubSeq(t, p, p + Len(x) - 1) = x } IN IF S = {} THEN 0 ELSE SetMin(S)
+InOrderIn(t, xs) ==
+  LET RECURSIVE Go(_, _)
+      Go(i, from) == IF i > Len(xs) THEN TRUE
+                     ELSE LET p == FirstAt(t, xs[i], from) IN p # 0 /\ Go(i + 1, p + Len(xs[i]))
+  IN Go(1, 1)
 C16legend_OK(ev) ==
   LET la == LegendAt(ev.rows) ents == ev.legend.entries
       after == SubSeq(ev.rows, la + 1, Len(ev.rows)) IN
@@ -658,7 +665,9 @@ C16legend_OK(ev) ==
         ev.doc.elems[i].role[j] = 1 => ev.doc.elems[i].n[j] <= (la - 1) * CH * MILLI
   \* the rules, in order, at the end of the style text
   /\ ev.doc.nstyle = 1
-  /\ (ents # <<>> => EndsWith(FlatRows(ev.doc.style), Join([i \in 1..Len(ents) |-> RuleText(ents[i])], <<10>>)))
+  \* (today: one after the other at the very end; in general: each rule's text, in the order of the entries)
+  /\ (ents # <<>> => \/ EndsWith(FlatRows(ev.doc.style), Join([i \in 1..Len(ents) |-> RuleText(ents[i])], <<10>>))
+                     \/ InOrderIn(FlatRows(ev.doc.style), [i \in 1..Len(ents) |-> RuleText(ents[i])]))
 
 \* ev.tags = << [r, c (0-based cell of the '{'), names |-> << name, ... >>, inside |-> 0/1] >>
 TagText(tg) == <<123>> \o Join(tg.names, <<44>>) \o <<125>>
